@@ -68,7 +68,7 @@ std::vector<Item> dump_state(const Schedule& sched, std::size_t step, const Summ
         d.i(p + "automatic_shutin", w.getAutomaticShutIn());
         if (w.isProducer()) {
             const auto c = w.productionControls(st);
-            d.s(p + "prod.cmode", WellProducerCMode2String(c.cmode));
+            d.s(p + "prod.cmode", c.cmode == Opm::WellProducerCMode::CMODE_UNDEFINED ? std::string("UNDEFINED") : WellProducerCMode2String(c.cmode));
             for (auto m : {Well::ProducerCMode::ORAT, Well::ProducerCMode::WRAT, Well::ProducerCMode::GRAT, Well::ProducerCMode::LRAT, Well::ProducerCMode::RESV, Well::ProducerCMode::BHP, Well::ProducerCMode::THP, Well::ProducerCMode::GRUP})
                 d.i(p + "prod.has_" + WellProducerCMode2String(m), c.hasControl(m));
             d.n(p + "prod.oil_rate", c.oil_rate, true); d.n(p + "prod.water_rate", c.water_rate, true); d.n(p + "prod.gas_rate", c.gas_rate, true);
@@ -76,7 +76,7 @@ std::vector<Item> dump_state(const Schedule& sched, std::size_t step, const Summ
             d.n(p + "prod.bhp_limit", c.bhp_limit, true); d.n(p + "prod.thp_limit", c.thp_limit, true);
         } else {
             const auto c = w.injectionControls(st);
-            d.s(p + "inj.cmode", WellInjectorCMode2String(c.cmode));
+            d.s(p + "inj.cmode", c.cmode == Opm::WellInjectorCMode::CMODE_UNDEFINED ? std::string("UNDEFINED") : WellInjectorCMode2String(c.cmode));
             d.s(p + "inj.type", InjectorType2String(c.injector_type));
             for (auto m : {Well::InjectorCMode::RATE, Well::InjectorCMode::RESV, Well::InjectorCMode::BHP, Well::InjectorCMode::THP, Well::InjectorCMode::GRUP})
                 d.i(p + "inj.has_" + WellInjectorCMode2String(m), c.hasControl(m));
